@@ -8,6 +8,7 @@ package props
 // evaluated structurally with math/big and must equal the written value exactly.
 
 import (
+	"runtime"
 	"bytes"
 	"encoding/json"
 	"fmt"
@@ -73,6 +74,8 @@ type lowPt struct {
 	Twice    bool     `json:"twice"`
 	V        lowVal   `json:"v"`
 	Den      lowVal   `json:"den"`
+	Src      string   `json:"src"`
+	Tail     string   `json:"tail"`
 	Op       string   `json:"op"`
 	Shape    []string `json:"shape"`
 	Holder   string   `json:"holder"`
@@ -89,6 +92,7 @@ type lowPoint struct {
 		Temps     int      `json:"temps"`
 		Placement string   `json:"placement"`
 		Zeros     []string `json:"zeros"`
+		Verdict   string   `json:"verdict"`
 		Sel       string   `json:"sel"`
 		Elem      string   `json:"elem"`
 		NElems    int      `json:"nelems"`
@@ -103,7 +107,7 @@ func (p lowPoint) describe() string {
 	case "boolcast":
 		return fmt.Sprintf("%s(%s bool)", p.Pt.Ty, p.Pt.B)
 	case "optional":
-		return fmt.Sprintf("f(%d required, optional %v) called with %d arguments", p.Pt.NReq, p.Pt.Opts, p.Pt.Given)
+		return fmt.Sprintf("f(%d required, optional %v, tail %s; signature from %s) called with %d arguments", p.Pt.NReq, p.Pt.Opts, p.Pt.Tail, p.Pt.Src, p.Pt.Given)
 	case "alias":
 		return fmt.Sprintf("%s receiver .%s [%s]", p.Pt.Recv, p.Pt.M, p.Pt.Mode)
 	case "member":
@@ -125,6 +129,9 @@ func (p lowPoint) class() string {
 	case "boolcast":
 		return fmt.Sprintf("boolcast/%s/%s", map[bool]string{true: "constant", false: "non-constant"}[p.Pt.B == "true" || p.Pt.B == "false"], p.Pt.Ty)
 	case "optional":
+		if p.Pt.Src != "func" || p.Pt.Tail != "none" {
+			return fmt.Sprintf("optional/%s/tail=%s/%s/omitted=%v", p.Pt.Src, p.Pt.Tail, p.Low.Verdict, p.Low.Zeros)
+		}
 		return fmt.Sprintf("optional/omitted=%v", p.Low.Zeros)
 	case "alias":
 		return fmt.Sprintf("alias/%s/%s/%s", p.Pt.M, p.Pt.Mode, p.Pt.Recv)
@@ -394,27 +401,50 @@ func (w *lowWorld) build(p lowPoint) (name, ref, fail string) {
 			}
 			panic("harness: parameter type " + n)
 		}
+		// parameters of a "foreign" signature belong to another package: there the optional flag is the documented name prefix
+		foreign := types.NewPackage("example.com/ext", "ext")
+		mk := func(pname string, t types.Type, optional bool) *types.Var {
+			if p.Pt.Src == "foreign" {
+				if optional {
+					pname = "__xgo_optional_" + pname
+				}
+				return types.NewParam(token.NoPos, foreign, pname, t)
+			}
+			return pkg.NewParam(token.NoPos, pname, t, optional)
+		}
 		var ps []*types.Var
 		var sig []string
 		for i := 0; i < p.Pt.NReq; i++ {
-			ps = append(ps, pkg.NewParam(token.NoPos, fmt.Sprintf("r%d", i), types.Typ[types.Int], false))
+			ps = append(ps, mk(fmt.Sprintf("r%d", i), types.Typ[types.Int], false))
 			sig = append(sig, fmt.Sprintf("r%d int", i))
 		}
 		for i, o := range p.Pt.Opts {
-			ps = append(ps, pkg.NewParam(token.NoPos, fmt.Sprintf("o%d", i), tyOf(o), true))
+			ps = append(ps, mk(fmt.Sprintf("o%d", i), tyOf(o), true))
 			t := o
 			if t == "any" {
 				t = "interface{}"
 			}
 			sig = append(sig, fmt.Sprintf("__xgo_optional_o%d %s", i, t)) // the documented marker of an optional parameter in the emitted declaration
 		}
+		switch p.Pt.Tail {
+		case "req":
+			ps = append(ps, mk("t", types.Typ[types.Int], false))
+			sig = append(sig, "t int")
+		case "variadic":
+			ps = append(ps, mk("v", types.NewSlice(types.Typ[types.Int]), false))
+			sig = append(sig, "v ...int")
+		}
 		fname := name + "f"
-		pkg.NewFunc(nil, fname, types.NewTuple(ps...), nil, false).BodyStart(pkg).End()
+		if p.Pt.Src == "func" || p.Pt.Src == "" {
+			pkg.NewFunc(nil, fname, types.NewTuple(ps...), nil, p.Pt.Tail == "variadic").BodyStart(pkg).End()
+		} else {
+			pkg.NewVar(token.NoPos, types.NewSignatureType(nil, nil, nil, types.NewTuple(ps...), nil, p.Pt.Tail == "variadic"), fname)
+		}
 		cb := pkg.NewFunc(nil, name, nil, nil, false).BodyStart(pkg)
 		cb.Val(obj(fname))
 		var args []string
 		for i := 0; i < p.Pt.Given; i++ {
-			if i < p.Pt.NReq {
+			if i < p.Pt.NReq || i >= p.Pt.NReq+len(p.Pt.Opts) {
 				cb.Val(1)
 				args = append(args, "1")
 				continue
@@ -440,6 +470,36 @@ func (w *lowWorld) build(p lowPoint) (name, ref, fail string) {
 				args = append(args, "vS")
 			}
 		}
+		if p.Low.Verdict == "reject" {
+			// a required parameter is among the omitted ones: not an instance of the extension, the call must be reported
+			rejected := false
+			func() {
+				defer func() {
+					if e := recover(); e != nil {
+						if _, isRT := e.(runtime.Error); isRT {
+							panic(e)
+						}
+						rejected = true
+					}
+				}()
+				cb.Call(p.Pt.Given)
+			}()
+			if len(w.errs) > 0 {
+				rejected = true
+				w.errs = nil
+			}
+			cb.ResetStmt()
+			cb.End()
+			if !rejected {
+				panic("accepted-with-made-up-argument")
+			}
+			if p.Pt.Src == "func" || p.Pt.Src == "" {
+				ref = fmt.Sprintf("func %s(%s) {\n}\nfunc %s() {\n}\n", fname, strings.Join(sig, ", "), name)
+			} else {
+				ref = fmt.Sprintf("var %s func(%s)\nfunc %s() {\n}\n", fname, strings.Join(sig, ", "), name)
+			}
+			break
+		}
 		cb.Call(p.Pt.Given).EndStmt().End()
 		for _, z := range p.Low.Zeros {
 			if z == "str" {
@@ -447,7 +507,11 @@ func (w *lowWorld) build(p lowPoint) (name, ref, fail string) {
 			}
 			args = append(args, z)
 		}
-		ref = fmt.Sprintf("func %s(%s) {\n}\nfunc %s() {\n%s(%s)\n}\n", fname, strings.Join(sig, ", "), name, fname, strings.Join(args, ", "))
+		if p.Pt.Src == "func" || p.Pt.Src == "" {
+			ref = fmt.Sprintf("func %s(%s) {\n}\nfunc %s() {\n%s(%s)\n}\n", fname, strings.Join(sig, ", "), name, fname, strings.Join(args, ", "))
+		} else {
+			ref = fmt.Sprintf("var %s func(%s)\nfunc %s() {\n%s(%s)\n}\n", fname, strings.Join(sig, ", "), name, fname, strings.Join(args, ", "))
+		}
 	case "alias":
 		recv := map[string]string{"value": "vt", "pointer": "vpt"}[p.Pt.Recv]
 		cb := pkg.NewVarStart(token.NoPos, nil, name).Val(obj(recv))
